@@ -976,10 +976,11 @@ class Interp:
             canon = {ast.Eq: ("==", False), ast.NotEq: ("==", True), ast.Lt: ("<", False), ast.GtE: ("<", True),
                      ast.Gt: (">", False), ast.LtE: (">", True)}[type(op)]
             return Unknown(f"({sa} {canon[0]} {sb})", canon[1])
-        if isinstance(op, ast.Eq):
-            return self._eq(a, b)
-        if isinstance(op, ast.NotEq):
-            return not self._eq(a, b)
+        if isinstance(op, (ast.Eq, ast.NotEq)):
+            r = self._eq(a, b)
+            if isinstance(r, Unknown):
+                return Unknown(r.sym, not r.neg) if isinstance(op, ast.NotEq) else r
+            return r if isinstance(op, ast.Eq) else (not r)
         if _opaque(a) or _opaque(b):
             return self.fresh("cmp")
         try:
@@ -997,7 +998,23 @@ class Interp:
             return False
         if isinstance(a, Obj) or isinstance(b, Obj):
             if isinstance(a, Obj) and isinstance(b, Obj) and a.cls is b.cls and a.cls is not None and a.cls.is_dataclass():
-                return all(self._eq(a.fields.get(k), b.fields.get(k)) for k in set(a.fields) | set(b.fields))
+                if a is b:
+                    return True
+                unknown = []
+                for k in sorted(set(a.fields) | set(b.fields)):
+                    x, y = a.fields.get(k), b.fields.get(k)
+                    if isinstance(x, Unknown) or isinstance(y, Unknown):
+                        if not (isinstance(x, Unknown) and isinstance(y, Unknown) and x == y):
+                            unknown.append(f"{_sym(x)} == {_sym(y)}")
+                        continue
+                    r = self._eq(x, y)
+                    if isinstance(r, Unknown):
+                        unknown.append(r.sym)
+                    elif not r:
+                        return False
+                if unknown:
+                    return Unknown("(" + " and ".join(unknown) + ")")
+                return True
             return a is b
         try:
             return a == b
@@ -1567,7 +1584,7 @@ class Interp:
                 return getattr(recv, name)(*a)
         if isinstance(recv, str):
             if any(isinstance(a, Unknown) for a in args):
-                return self.fresh(f"str.{name}")
+                return Unknown(f"{recv!r}.{name}({', '.join(_sym(a) for a in args)})")
             try:
                 if name == "join":
                     items = self.iterate(args[0])
